@@ -5,8 +5,9 @@
    double-bond reference atoms) is universally quantified. *)
 From Coq Require Import ZArith List String Bool.
 From Model Require Import PyBase Graph PeriodicTable Stereo Rdkit RdkitRegistry.
-From Gen Require Import Elements RdkitTables StereoTables RdkitConsts.
-From Proofs Require Import StereoProofs RdkitProofs RdkitExt RdkitExt2 RdkitExt3 RdkitExt4 RdkitExt5 RdkitExt6.
+From Model Require Import RdkitApi RdkitConfApi RdkitBonds.
+From Gen Require Import Elements RdkitTables StereoTables RdkitConsts RdkitBody RdkitSign RdkitConf RdkitRegistryBody.
+From Proofs Require Import StereoProofs RdkitProofs RdkitExt RdkitExt2 RdkitExt3 RdkitExt4 RdkitExt5 RdkitExt6 RdkitBodyTie RdkitSignTie RdkitConfTie RdkitRegistryTie RdkitInverted RdkitBondsOf RdkitBodyTie2.
 Import ListNotations.
 Open Scope string_scope.
 Open Scope Z_scope.
@@ -733,3 +734,331 @@ Theorem C20_bridge_tetrahedra_end_to_end_example :
   stereogenic_tetrahedrons_of g = [(7, [3; 9; 4])].
 Proof. exact end_to_end_example. Qed.
 Print Assumptions C20_bridge_tetrahedra_end_to_end_example.
+
+(* ---- round 4: the model functions ARE the source, translated ----
+   Gen.RdkitBody is regenerated on every run by tools/gen_rdkit_body.py from the statements of to_rdkit_molecule /
+   from_rdkit_molecule (chython/utils/rdkit.py), one Gallina term per Python statement in the error monad, with the API names read as
+   in Model.RdkitApi.  The hand-written model functions the theorems above are about are equal, for all inputs, to these translated
+   bodies: an edit of a translated statement that changes behaviour breaks one of the following equalities. *)
+(* to_rdkit_molecule, `for n, a in data.atoms()` (first loop): the RDKit atom *)
+Theorem C20_translated_to_atom : forall n keep a, g_to_atom n keep a = to_atom n keep a.
+Proof. exact tie_to_atom. Qed.
+Print Assumptions C20_translated_to_atom.
+
+(* to_rdkit_molecule, `for n, m, b in data.bonds()` (first loop over bonds): the dative-direction exchange and AddBond *)
+Theorem C20_translated_to_bond : forall (asym : Z -> pyres string) l n m o,
+  g_to_bond asym (midx l) n m o =
+  match asym n with
+  | Err e => Err e
+  | Ok s => match to_bond s n m o with
+            | Err e => Err e
+            | Ok (bn, en, t) => match midx l bn, midx l en with
+                                | Ok bi, Ok ei => Ok (bi, ei, t)
+                                | Err e, _ => Err e
+                                | _, Err e => Err e
+                                end
+            end
+  end.
+Proof. exact tie_to_bond. Qed.
+Print Assumptions C20_translated_to_bond.
+
+(* the structure part of to_rdkit_molecule on a whole molecule = the two translated bodies over data.atoms() / data.bonds() *)
+Theorem C20_translated_to_mol : forall keep atoms bonds,
+  to_mol keep (atoms, bonds) =
+  pbind (mapM (fun na => g_to_atom (fst na) keep (snd na)) atoms) (fun ras =>
+  pbind (mapM (fun b => let '(n, m, o) := b in
+                        g_to_bond (fun k => match zget atoms k with
+                                            | None => Err KeyError
+                                            | Some a => Ok (chython_symbol (c_num a))
+                                            end)
+                                  (midx (index_map (map fst atoms))) n m o) bonds) (fun rbs =>
+  Ok (ras, rbs))).
+Proof. exact tie_to_mol. Qed.
+Print Assumptions C20_translated_to_mol.
+
+(* to_rdkit_molecule, second loop over the atoms: the chiral tag *)
+Theorem C20_translated_to_tag : forall isH th (mapping : Z -> pyres Z) n s env i, mapping n = Ok i ->
+  g_to_tag isH th mapping n s env = to_chiral_tag isH (zget th n) env s.
+Proof. exact tie_to_tag. Qed.
+Print Assumptions C20_translated_to_tag.
+
+(* to_rdkit_molecule, second loop over the bonds: stereo atoms and E/Z label, per bond and over data.bonds() *)
+Theorem C20_translated_to_bond_label : forall centers ct n m s,
+  g_to_bond_label centers ct (fun k => Ok k) n m s =
+  pyres_map embed_label (to_bond_stereo_sel (zget centers n) n m (match zget centers n with Some c => pget ct c | None => None end) s).
+Proof. exact tie_to_bond_label. Qed.
+Print Assumptions C20_translated_to_bond_label.
+
+Theorem C20_translated_to_bond_labels : forall centers ct bonds,
+  mapM (fun b => let '(n, m, s) := b in g_to_bond_label centers ct (fun k => Ok k) n m s) bonds =
+  pyres_map (map embed_label) (to_bond_labels centers ct bonds).
+Proof. exact tie_to_bond_labels. Qed.
+Print Assumptions C20_translated_to_bond_labels.
+
+(* from_rdkit_molecule, `for ra in data.GetAtoms()`: the chython atom and the entry of tetrahedron_stereo *)
+Theorem C20_translated_from_atom : forall symbol impl x y idx nbrs tag r,
+  g_from_atom symbol impl x y idx nbrs tag r =
+  match from_atom symbol impl x y r with
+  | Err e => Err e
+  | Ok c => Ok (c, th_entry idx nbrs tag)
+  end.
+Proof. exact tie_from_atom. Qed.
+Print Assumptions C20_translated_from_atom.
+
+(* from_rdkit_molecule, `for b in data.GetBonds()`: add_bond and the entry of cis_trans_stereo *)
+Theorem C20_translated_from_bond : forall bi ei t label sb se,
+  g_from_bond (fun i => Ok (i + 1)) bi ei t label (sb, se) =
+  match from_bond (bi + 1) (ei + 1) t with
+  | Err e => Err e
+  | Ok q => Ok (q, ct_entry (bi + 1) (ei + 1) (sb + 1) (se + 1) label)
+  end.
+Proof. exact tie_from_bond. Qed.
+Print Assumptions C20_translated_from_bond.
+
+(* the structure part of from_rdkit_molecule on a whole molecule = the translated atom body over data.GetAtoms() (the atom of index i
+   is numbered i + 1) and the translated bond body over data.GetBonds() *)
+Theorem C20_translated_from_mol : forall symbol impls xy ras rbs,
+  from_mol symbol impls xy (ras, rbs) =
+  pbind (from_atoms_g symbol 0 ras impls xy) (fun atoms =>
+  pbind (mapM (fun b => let '(bi, ei, t) := b in pyres_map fst (g_from_bond (fun i => Ok (i + 1)) bi ei t "" (0, 0))) rbs) (fun bonds =>
+  Ok (atoms, bonds))).
+Proof. exact tie_from_mol. Qed.
+Print Assumptions C20_translated_from_mol.
+
+(* from_rdkit_molecule, "move stereo labels as is": the two try / except KeyError loops *)
+Theorem C20_translated_from_label_th : forall isH th k env s tag, sign_of_tag tag = Some s ->
+  g_from_label_th isH th (fun i => Ok (i + 1)) k env s = from_chiral_tag isH (zget th (k + 1)) (map (fun j => j + 1) env) tag.
+Proof. exact tie_from_label_th. Qed.
+Print Assumptions C20_translated_from_label_th.
+
+Theorem C20_translated_from_label_ct : forall isH ct n m nn nm s label, sign_of_bs label = Some s ->
+  g_from_label_ct isH ct n m nn nm s = from_bond_stereo isH (pget ct (n, m)) (pget ct (m, n)) nn nm label.
+Proof. exact tie_from_label_ct. Qed.
+Print Assumptions C20_translated_from_label_ct.
+
+(* from_rdkit_molecule, the statements after the label loops: fix_structure, then fix_stereo iff an entry was collected *)
+Theorem C20_translated_from_tail : forall fixs isH th ct nb tags rbonds,
+  from_stereo_final fixs isH th ct nb tags rbonds =
+  pbind (from_tags isH th nb 0 tags) (fun la =>
+  pbind (from_bond_labels isH ct rbonds) (fun lb =>
+  g_from_tail (fun l => l) fixs (filter tag_has_sign tags) (filter bond_has_sign rbonds) (la, lb))).
+Proof. exact tie_from_tail. Qed.
+Print Assumptions C20_translated_from_tail.
+
+(* non-vacuity: the translated bodies compute (a charged radical isotope; both dative directions; an E/Z label in both directions) *)
+Theorem C20_translated_examples :
+  g_to_atom 7 true (mkC 6 (Some 13) (-1) true (Some 2) None 0 0) = Ok (mkR 6 13 (-1) 1 2 7) /\
+  g_to_bond (fun _ => Ok "Fe") (fun k => Ok (k - 1)) 1 2 8 = Ok (1, 0, "DATIVE") /\
+  g_to_bond (fun _ => Ok "N") (fun k => Ok (k - 1)) 1 2 8 = Ok (0, 1, "DATIVE") /\
+  g_to_bond_label [(1, (1, 2)); (2, (1, 2))] [(1, 2, (3, 4, None, None))] (fun k => Ok k) 1 2 (Some true) = Ok (Some (3, 4), Some "STEREOZ") /\
+  g_from_bond (fun i => Ok (i + 1)) 0 1 "DOUBLE" "STEREOE" (2, 3) = Ok (1, 2, 2, Some (1, 2, 3, 4, false)).
+Proof. exact tie_examples. Qed.
+Print Assumptions C20_translated_examples.
+
+(* ---- round 4: the sign conventions ARE the source, translated ----
+   Gen.RdkitSign is regenerated on every run by tools/gen_rdkit_sign.py from the bodies of MoleculeStereo._translate_tetrahedron_sign
+   and MoleculeStereo._translate_cis_trans_sign (chython/algorithms/stereo.py): every statement (the if / elif / else chains, the two
+   try blocks, the table look-ups) in continuation style in the error monad.  Model.Stereo.translate_th / translate_ct, on which all
+   configuration theorems above rest, are equal to the translated bodies for all inputs. *)
+Theorem C20_translated_sign_th : forall isH th lab n env (s : bool),
+  g_translate_th isH th lab n env (Some s) = pyres_map Some (py_translate_th isH th n env s).
+Proof. exact tie_translate_th. Qed.
+Print Assumptions C20_translated_sign_th.
+
+(* called without a sign (to_rdkit_molecule): the atom's own label, KeyError without one *)
+Theorem C20_translated_sign_th_self : forall isH th lab n env,
+  g_translate_th isH th lab n env None = pyres_map Some (py_translate_th_self isH th lab n env).
+Proof. exact tie_translate_th_self. Qed.
+Print Assumptions C20_translated_sign_th_self.
+
+Theorem C20_translated_sign_ct : forall isH ct centers bl n m nn nm (s : bool),
+  g_translate_ct isH ct centers bl n m nn nm (Some s) = pyres_map Some (py_translate_ct isH ct n m nn nm s).
+Proof. exact tie_translate_ct. Qed.
+Print Assumptions C20_translated_sign_ct.
+
+(* what the API readings used above unfold to: the registry look-up, then Model.Stereo *)
+Theorem C20_translated_sign_reading : forall isH th ct n m env nn nm s,
+  py_translate_th isH th n env s = match zget th n with None => Err KeyError | Some o => translate_th isH o env s end /\
+  py_translate_ct isH ct n m nn nm s = translate_ct isH (pget ct (n, m)) (pget ct (m, n)) nn nm s.
+Proof. intros. split; reflexivity. Qed.
+Print Assumptions C20_translated_sign_reading.
+
+Theorem C20_translated_sign_examples :
+  g_translate_th (fun x => x =? 9) [(5, [1; 2; 3])] None 5 [3; 1; 2] (Some true) = Ok (Some true) /\
+  g_translate_th (fun x => x =? 9) [(5, [1; 2; 3])] None 5 [2; 1; 3] (Some true) = Ok (Some false) /\
+  g_translate_th (fun x => x =? 9) [(5, [1; 2; 3])] None 5 [9; 1; 2; 3] (Some true) = Ok (Some false) /\
+  g_translate_th (fun x => x =? 9) [(5, [1; 2; 3])] None 5 [8; 1; 2; 3] (Some true) = Err KeyError /\
+  g_translate_ct (fun x => x =? 9) [(1, 2, (3, 4, Some 5, None))] [] (fun _ _ => Ok None) 1 2 3 4 (Some true) = Ok (Some true) /\
+  g_translate_ct (fun x => x =? 9) [(1, 2, (3, 4, Some 5, None))] [] (fun _ _ => Ok None) 1 2 5 4 (Some true) = Ok (Some false) /\
+  g_translate_ct (fun x => x =? 9) [(1, 2, (3, 4, Some 5, None))] [] (fun _ _ => Ok None) 2 1 9 5 (Some true) = Ok (Some true) /\
+  g_translate_ct (fun x => x =? 9) [(1, 2, (3, 4, Some 5, None))] [] (fun _ _ => Ok None) 1 2 7 4 (Some true) = Err KeyError.
+Proof. exact sign_examples. Qed.
+Print Assumptions C20_translated_sign_examples.
+
+(* ---- round 4: the conformer part of to_rdkit_molecule, translated (Gen.RdkitConf, tools/gen_rdkit_conf.py) ----
+   The hand model writes the 2D conformer as the list of (x, y, 0) in atom order; the code stores the position of atom n at index
+   mapping[n].  For distinct atom numbers the translated loop builds exactly that list, and the whole dictionary conformer model is the
+   translated steps folded in the order of the code. *)
+Theorem C20_translated_conformer_2d : forall atoms, NoDup (map fst atoms) ->
+  pbind g_conf_new (fun conf =>
+  pbind (foldM (fun conf na => g_conf2d_step (midx (index_map (map fst atoms))) conf (fst na) (snd na)) atoms conf)
+        (g_conf2d_finish (List.length atoms))) =
+  Ok (false, map pos_of atoms).
+Proof. exact tie_conf2d. Qed.
+Print Assumptions C20_translated_conformer_2d.
+
+Theorem C20_translated_conformer_3d : forall nums c,
+  pbind g_conf3d_new (fun conf =>
+  pbind (foldM (fun conf e => g_conf3d_step (midx (index_map nums)) conf (fst e) (snd e)) c conf)
+        (g_conf3d_finish (List.length nums))) =
+  match fill_conf (index_map nums) [] c with
+  | Err e => Err e
+  | Ok ps => if Nat.eqb (List.length ps) (List.length nums) then Ok (true, ps) else Err OtherError
+  end.
+Proof. exact tie_conf3d. Qed.
+Print Assumptions C20_translated_conformer_3d.
+
+Theorem C20_translated_conformers : forall atoms confs, NoDup (map fst atoms) ->
+  to_conformers_dict (map fst atoms) (map (fun na => (c_x (snd na), c_y (snd na))) atoms) confs =
+  pbind (pbind g_conf_new (fun conf =>
+         pbind (foldM (fun conf na => g_conf2d_step (midx (index_map (map fst atoms))) conf (fst na) (snd na)) atoms conf)
+               (g_conf2d_finish (List.length atoms)))) (fun c2 =>
+  pbind (mapM (fun c => pbind g_conf3d_new (fun conf =>
+                        pbind (foldM (fun conf e => g_conf3d_step (midx (index_map (map fst atoms))) conf (fst e) (snd e)) c conf)
+                              (g_conf3d_finish (List.length (map fst atoms))))) confs) (fun cs =>
+  Ok (c2 :: cs))).
+Proof. exact tie_to_conformers_dict. Qed.
+Print Assumptions C20_translated_conformers.
+
+(* non-vacuity: atoms numbered 7, 3: the position of atom 3 lands at index 1; {3: .., 7: ..} is stored by index; an incomplete
+   conformer is refused by AddConformer; a key that is no atom is a KeyError *)
+Theorem C20_translated_conformer_examples :
+  pbind g_conf_new (fun conf =>
+    pbind (foldM (fun conf na => g_conf2d_step (midx (index_map [7; 3])) conf (fst na) (snd na))
+                 [(7, mkC 6 None 0 false (Some 0) None 11 12); (3, mkC 8 None 0 false (Some 0) None 21 22)] conf)
+          (g_conf2d_finish 2)) = Ok (false, [(11, 12, 0); (21, 22, 0)]) /\
+  pbind g_conf3d_new (fun conf => pbind (foldM (fun conf e => g_conf3d_step (midx (index_map [7; 3])) conf (fst e) (snd e)) [(3, (1, 2, 3)); (7, (4, 5, 6))] conf)
+                                        (g_conf3d_finish 2)) = Ok (true, [(4, 5, 6); (1, 2, 3)]) /\
+  pbind g_conf3d_new (fun conf => pbind (foldM (fun conf e => g_conf3d_step (midx (index_map [7; 3])) conf (fst e) (snd e)) [(7, (4, 5, 6))] conf)
+                                        (g_conf3d_finish 2)) = Err OtherError /\
+  pbind g_conf3d_new (fun conf => pbind (foldM (fun conf e => g_conf3d_step (midx (index_map [7; 3])) conf (fst e) (snd e)) [(9, (4, 5, 6))] conf)
+                                        (g_conf3d_finish 2)) = Err KeyError.
+Proof. exact conf_examples. Qed.
+Print Assumptions C20_translated_conformer_examples.
+
+(* ---- round 4: the stereo registry model IS the source, translated (Gen.RdkitRegistryBody, tools/gen_rdkit_registry.py) ----
+   The loop bodies of MoleculeStereo.tetrahedrons and MoleculeStereo.stereogenic_tetrahedrons (chython/algorithms/stereo.py), with their
+   all(..) / any(..) / sum(..) / tuple(..) comprehensions, translated statement by statement over Model.Graph.mol; the registry model
+   of Model.RdkitRegistry, from which C20_registry_equivariant and the end-to-end theorem compute the registries, equals them. *)
+Theorem C20_translated_tetrahedrons : forall g n,
+  is_tetrahedron g n = match atom_of g n with Some a => g_tetra_step g n a | None => false end.
+Proof. exact tie_is_tetrahedron. Qed.
+Print Assumptions C20_translated_tetrahedrons.
+
+Theorem C20_translated_stereogenic_entry : forall g n,
+  stereogenic_entry g n = if is_tetrahedron g n then g_stereogenic_step g n else None.
+Proof. exact tie_stereogenic_entry. Qed.
+Print Assumptions C20_translated_stereogenic_entry.
+
+Theorem C20_translated_stereogenic_tetrahedrons : forall g,
+  stereogenic_tetrahedrons_of g =
+  flat_map (fun n => match g_stereogenic_step g n with Some e => [(n, e)] | None => [] end)
+           (filter (fun n => match atom_of g n with Some a => g_tetra_step g n a | None => false end) (ids g)).
+Proof. exact tie_stereogenic_tetrahedrons. Qed.
+Print Assumptions C20_translated_stereogenic_tetrahedrons.
+
+Theorem C20_translated_registry_example :
+  let sb := mkBond 1 None in
+  let g := mkMol [(3, mkAtom 7 None 0 false (Some 2) None); (7, mkAtom 6 None 0 false (Some 0) None);
+                  (9, mkAtom 6 None 0 false (Some 3) None); (4, mkAtom 6 None 0 false (Some 3) None);
+                  (5, mkAtom 1 None 0 false (Some 0) None)]
+                 [(3, [(7, sb)]); (7, [(3, sb); (9, sb); (4, sb); (5, sb)]); (9, [(7, sb)]); (4, [(7, sb)]); (5, [(7, sb)])] in
+  match atom_of g 7 with Some a => g_tetra_step g 7 a | None => false end = true /\
+  g_stereogenic_step g 7 = Some [3; 9; 4] /\
+  match atom_of g 3 with Some a => g_tetra_step g 3 a | None => true end = false.
+Proof. exact registry_examples. Qed.
+Print Assumptions C20_translated_registry_example.
+
+(* ---- round 4: the dictionary `inverted = {v: k for k, v in mapping.items()}` (its text is pinned by tools/gen_rdkit_body.py) ----
+   to_tags reads inverted[j] as the j-th atom number; with the dictionary modelled as built this is a theorem for distinct atom numbers *)
+Theorem C20_inverted_lookup : forall nums j, (j < List.length nums)%nat ->
+  inverted_get nums (Z.of_nat j) = Ok (znth nums (Z.of_nat j) 0).
+Proof. exact inverted_lookup. Qed.
+Print Assumptions C20_inverted_lookup.
+
+Theorem C20_inverted_of_mapping : forall nums k, NoDup nums -> (k < List.length nums)%nat ->
+  exists i, midx (index_map nums) (nth k nums 0) = Ok i /\ inverted_get nums i = Ok (nth k nums 0).
+Proof. exact inverted_of_mapping. Qed.
+Print Assumptions C20_inverted_of_mapping.
+
+Theorem C20_inverted_domain : forall nums j, (j < 0 \/ Z.of_nat (List.length nums) <= j) -> inverted_get nums j = Err KeyError.
+Proof. exact inverted_domain. Qed.
+Print Assumptions C20_inverted_domain.
+
+Theorem C20_inverted_example : inverted_get [7; 3; 12] 1 = Ok 3 /\ midx (index_map [7; 3; 12]) 3 = Ok 1 /\ inverted_get [7; 3; 12] 3 = Err KeyError.
+Proof. exact inverted_example. Qed.
+Print Assumptions C20_inverted_example.
+
+(* ---- round 4, FROM HYPOTHESIS TO THEOREM: data.bonds() as a function of the adjacency ----
+   Graph.bonds() (`seen` set, row after row) is modelled (Model.RdkitBonds.bonds_of, tied to list(mol.bonds()) of every molecule of
+   the registry correspondence).  For every molecule passing the well-formedness test of Model.Graph (also evaluated on those live
+   molecules) every atom's neighbours with their orders are, up to order, the bonds of data.bonds() incident to it, and every yielded
+   bond joins two different atoms of the molecule and is an entry of the adjacency: the two hypotheses of
+   C20_bridge_tetrahedra_end_to_end about the consistency of data.bonds() with the adjacency, formerly only tested, are derived. *)
+Theorem C20_bonds_of_adjacency : forall g, wf_mol g = true ->
+  (forall k, In k (ids g) -> Permutation.Permutation (plain (nbrs g k)) (incident k (bonds_of g))) /\
+  (forall n m o, In (n, m, o) (bonds_of g) -> In n (ids g) /\ In m (ids g) /\ n <> m /\
+                                              exists b, bond_of g n m = Some b /\ b_ord b = o).
+Proof. exact bonds_of_wf. Qed.
+Print Assumptions C20_bonds_of_adjacency.
+
+Theorem C20_bonds_of_example :
+  let sb := mkBond 1 None in
+  let g := mkMol [(3, mkAtom 7 None 0 false (Some 2) None); (7, mkAtom 6 None 0 false (Some 0) None);
+                  (9, mkAtom 6 None 0 false (Some 3) None); (4, mkAtom 6 None 0 false (Some 3) None);
+                  (5, mkAtom 1 None 0 false (Some 0) None)]
+                 [(3, [(7, sb)]); (7, [(3, sb); (9, sb); (4, sb); (5, sb)]); (9, [(7, sb)]); (4, [(7, sb)]); (5, [(7, sb)])] in
+  wf_mol g = true /\ bonds_of g = [(3, 7, 1); (7, 9, 1); (7, 4, 1); (7, 5, 1)].
+Proof. exact bonds_of_example. Qed.
+Print Assumptions C20_bonds_of_example.
+
+(* the end-to-end theorem with data.bonds() computed: hypotheses about the molecule given are now only its well-formedness test,
+   atoms in range, bond orders among the five a chython bond accepts (and RDKit listing each labelled centre's neighbours) *)
+Theorem C20_bridge_tetrahedra_end_to_end_wf : forall (symbol : Z -> string),
+  (forall z e, from_symbol (symbol z) = Some e -> e_num e = z) ->
+  forall keep atoms adj lab lab' nb impls xy,
+  let nums := map fst atoms in
+  let rho := rho_of nums in
+  let g := mkMol (graph_atoms atoms lab) adj in
+  let B := bonds_of g in
+  let atoms' := expect_atoms keep 0 atoms impls xy in
+  wf_mol g = true -> atoms_ok symbol atoms ->
+  (forall n m b, bond_of g n m = Some b -> In (b_ord b) [1; 2; 3; 4; 8]) ->
+  (forall i n, nth_error nums i = Some n -> lab n <> None -> stereogenic_entry g n <> None ->
+     NoDup (nbr_ids g n) /\ Permutation.Permutation (nbr_ids g n) (env_old nums nb (Z.of_nat i)) /\
+     (forall j, In j (nb (Z.of_nat i)) -> 0 <= j < Z.of_nat (List.length nums))) ->
+  exists ras rbs bonds', to_mol keep (atoms, B) = Ok (ras, rbs) /\
+    from_mol symbol impls xy (ras, rbs) = Ok (atoms', bonds') /\
+    let g' := mkMol (graph_atoms atoms' lab') (build_adj (map rho nums) bonds') in
+    exists tags, to_tags (is_hydrogen g) (stereogenic_tetrahedrons_of g) nums nb 0 (map (fun n => (n, lab n)) nums) = Ok tags /\
+      exists labels', from_tags (is_hydrogen g') (stereogenic_tetrahedrons_of g') nb 0 (map tag_name tags) = Ok labels' /\
+        Forall2 (label_image (is_hydrogen g') (stereogenic_tetrahedrons_of g) (stereogenic_tetrahedrons_of g') rho)
+                (map (fun n => (n, lab n)) nums) labels'.
+Proof. exact tetrahedra_end_to_end_wf. Qed.
+Print Assumptions C20_bridge_tetrahedra_end_to_end_wf.
+
+(* ---- round 4: the whole-molecule label functions = the translated loop bodies iterated ---- *)
+Theorem C20_translated_to_tags : forall isH th (mapping : Z -> pyres Z) nums nb atoms k,
+  (forall n s, In (n, s) atoms -> exists i, mapping n = Ok i) ->
+  to_tags isH th nums nb k atoms = to_tags_g isH th mapping nums nb k atoms.
+Proof. exact tie_to_tags. Qed.
+Print Assumptions C20_translated_to_tags.
+
+Theorem C20_translated_from_tags : forall isH th nb tags k, from_tags isH th nb k tags = from_tags_g isH th nb k tags.
+Proof. exact tie_from_tags. Qed.
+Print Assumptions C20_translated_from_tags.
+
+Theorem C20_translated_from_bond_labels : forall isH ct rbonds,
+  from_bond_labels isH ct rbonds = mapM (from_bond_label_g isH ct) rbonds.
+Proof. exact tie_from_bond_labels. Qed.
+Print Assumptions C20_translated_from_bond_labels.
